@@ -14,10 +14,12 @@ assumptions.PROPS['C01'] = {'level': 'proof', 'assume': ['A1', 'A2', 'A3', 'A5',
 SPAN_TOL = Fraction(1, 10 ** 5)     # helpers.find_span_binsearch: tol = 10e-6
 
 
-def _evaluator(ctx, kind, rational, span):
+def _evaluator(ctx, kind, rational, span, alt=False):
     ev = ctx.geomdl('evaluators')
     hp = ctx.geomdl('helpers')
     f = {'linear': hp.find_span_linear, 'binsearch': hp.find_span_binsearch}[span]
+    if alt:      # the alternative evaluator classes shipped for non-rational shapes (A3.3/A3.4, A3.7/A3.8)
+        return {'curve': ev.CurveEvaluator2, 'surface': ev.SurfaceEvaluator2}[kind](find_span_func=f)
     cls = {('curve', False): ev.CurveEvaluator, ('curve', True): ev.CurveEvaluatorRational,
            ('surface', False): ev.SurfaceEvaluator, ('surface', True): ev.SurfaceEvaluatorRational,
            ('volume', False): ev.VolumeEvaluator, ('volume', True): ev.VolumeEvaluatorRational}[(kind, rational)]
@@ -37,6 +39,8 @@ def _curve_shapes(tier):
         out.append(dict(p=p, mult=mult, rational=True, span='linear', clamped=True, samples=3))
         out.append(dict(p=p, mult=mult, rational=False, span='binsearch', clamped=True, samples=4))
     out.append(dict(p=2, mult=[1], rational=False, span='linear', clamped=False, samples=3))
+    out.append(dict(p=2, mult=[1, 1], rational=False, span='linear', clamped=True, samples=3, alt=True))
+    out.append(dict(p=3, mult=[2], rational=False, span='binsearch', clamped=True, samples=3, alt=True))
     out.append(dict(p=3, mult=[], rational=False, span='linear', clamped=False, samples=2))
     out.append(dict(p=1, mult=[1], rational=True, span='binsearch', clamped=False, samples=3))
     if tier == 'thorough':
@@ -52,7 +56,7 @@ def _curve_shapes(tier):
                       'helpers.find_span_linear', 'helpers.find_span_binsearch', 'helpers.basis_function',
                       'linalg.linspace', 'abstract.Curve.sample_size'],
           quick=lambda: _curve_shapes('quick'), thorough=lambda: _curve_shapes('thorough'))
-def curve_eval(ctx, p, mult, rational, span, clamped, samples):
+def curve_eval(ctx, p, mult, rational, span, clamped, samples, alt=False):
     """requires valid_kv, u in domain (binsearch: tol-separated from the domain end, distinct knots > tol apart),
     positive weights.  ensures all four entry points == C(u); grid size/order/corners."""
     U, inner, n = shapes.make_kv(ctx, p, mult, clamped=clamped, normalized=clamped)
@@ -67,7 +71,7 @@ def curve_eval(ctx, p, mult, rational, span, clamped, samples):
     P = shapes.net(ctx, 'P', n, 2)
     W = shapes.weights(ctx, 'w', n) if rational else None
     crv = shapes.build_curve(ctx, p, U, P, W, normalize_kv=clamped)
-    crv.evaluator = _evaluator(ctx, 'curve', rational, span)
+    crv.evaluator = _evaluator(ctx, 'curve', rational, span, alt)
     Pw = shapes.homog(P, W)
     if rational:
         ctx.assume_pos(spec.curve_point(p, U, [[w] for w in W], u)[0], 'L.weight_function_positive')
@@ -124,7 +128,10 @@ def _surface_shapes(tier):
            dict(pu=2, pv=1, mu=[1], mv=[], rational=False, span='linear', samples=[3, 2]),
            dict(pu=2, pv=2, mu=[1], mv=[1], rational=False, span='binsearch', samples=[2, 2]),
            dict(pu=2, pv=2, mu=[], mv=[], rational=True, span='linear', samples=[2, 2]),
-           dict(pu=1, pv=2, mu=[1], mv=[], rational=True, span='linear', samples=[2, 3])]
+           dict(pu=1, pv=2, mu=[1], mv=[], rational=True, span='linear', samples=[2, 3]),
+           # the alternative evaluator on nets with different sizes and degrees per direction
+           dict(pu=2, pv=1, mu=[1], mv=[], rational=False, span='linear', samples=[3, 2], alt=True),
+           dict(pu=1, pv=2, mu=[], mv=[1, 1], rational=False, span='linear', samples=[2, 3], alt=True)]
     if tier == 'thorough':
         out += [dict(pu=3, pv=2, mu=[1], mv=[1, 1], rational=False, span='linear', samples=[4, 3]),
                 dict(pu=3, pv=3, mu=[2], mv=[1], rational=False, span='binsearch', samples=[3, 3]),
@@ -136,7 +143,7 @@ def _surface_shapes(tier):
                       'BSpline.Surface.derivatives', 'evaluators.SurfaceEvaluator.evaluate',
                       'evaluators.SurfaceEvaluatorRational.evaluate', 'abstract.Surface.sample_size'],
           quick=lambda: _surface_shapes('quick'), thorough=lambda: _surface_shapes('thorough'))
-def surface_eval(ctx, pu, pv, mu, mv, rational, span, samples):
+def surface_eval(ctx, pu, pv, mu, mv, rational, span, samples, alt=False):
     """ensures S(u,v) == tensor-product definition through every entry point; grid is u-outer / v-inner"""
     U, iu, su = shapes.make_kv(ctx, pu, mu, prefix='a')
     V, iv, sv = shapes.make_kv(ctx, pv, mv, prefix='b')
@@ -149,7 +156,7 @@ def surface_eval(ctx, pu, pv, mu, mv, rational, span, samples):
     P = shapes.net(ctx, 'P', su * sv, 3)
     W = shapes.weights(ctx, 'w', su * sv) if rational else None
     srf = shapes.build_surface(ctx, pu, pv, U, V, P, su, sv, W)
-    srf.evaluator = _evaluator(ctx, 'surface', rational, span)
+    srf.evaluator = _evaluator(ctx, 'surface', rational, span, alt)
     Pw = shapes.homog(P, W)
 
     def S(a, b):
@@ -237,3 +244,78 @@ def _grid_order(ctx, pts, samples, Vv):
                 ctx.check_eq_vec('grid[u=%d,v=%d,w=%d]' % (i, j, k), pts[idx], Vv(a, b, c))
                 idx += 1
     return True
+
+
+# ------------------------------------------------------------------------------------------------
+# evaluation after the definition was edited through the public views (rational shapes keep caches of the views)
+# ------------------------------------------------------------------------------------------------
+def _edit_histories():
+    out = []
+    for kind in ('curve', 'surface', 'volume'):
+        for hist in (['net', 'weights'], ['ctrlpts', 'weights'], ['weights', 'net'], ['weights', 'ctrlpts', 'weights']):
+            out.append(dict(kind=kind, hist=hist))
+    return out
+
+
+@scenario('C01', fns=['NURBS.Curve.reset', 'NURBS.Surface.reset', 'NURBS.Volume.reset', 'NURBS.Curve.weights', 'NURBS.Surface.weights',
+                      'NURBS.Volume.weights', 'NURBS.Curve.ctrlpts', 'NURBS.Surface.ctrlpts', 'NURBS.Volume.ctrlpts',
+                      'abstract.SplineGeometry.set_ctrlpts', 'BSpline.Surface.set_ctrlpts', 'evaluators.CurveEvaluatorRational.evaluate',
+                      'evaluators.SurfaceEvaluatorRational.evaluate', 'evaluators.VolumeEvaluatorRational.evaluate'],
+          quick=_edit_histories)
+def rational_edit_then_eval(ctx, kind, hist):
+    """requires: a rational shape whose views (ctrlpts, weights) have been read once; then the edits in `hist`:
+                 net = set_ctrlpts(new homogeneous net), ctrlpts = new Cartesian points (weights kept),
+                 weights = new positive weights (points kept); nothing is read in between
+       ensures : evaluate_single / evaluate_list / derivatives order 0 give the point of the definition that results from
+                 the edits (last written points, last written weights)"""
+    deg = {'curve': [2], 'surface': [1, 2], 'volume': [1, 1, 1]}[kind]
+    mult = {'curve': [[1]], 'surface': [[1], []], 'volume': [[], [1], []]}[kind]
+    kvs, sizes = [], []
+    for a, pfx in enumerate('abc'[:len(deg)]):
+        U, _i, n = shapes.make_kv(ctx, deg[a], mult[a], prefix=pfx)
+        kvs.append(U)
+        sizes.append(n)
+    total = 1
+    for n in sizes:
+        total *= n
+    dim = 2 if kind == 'curve' else 3
+    P = shapes.net(ctx, 'P', total, dim)
+    W = shapes.weights(ctx, 'w', total)
+    if kind == 'curve':
+        obj = shapes.build_curve(ctx, deg[0], kvs[0], P, W)
+    elif kind == 'surface':
+        obj = shapes.build_surface(ctx, deg[0], deg[1], kvs[0], kvs[1], P, sizes[0], sizes[1], W)
+    else:
+        obj = shapes.build_volume(ctx, deg[0], deg[1], deg[2], kvs[0], kvs[1], kvs[2], P, sizes[0], sizes[1], sizes[2], W)
+    _ = ([list(p) for p in obj.ctrlpts], list(obj.weights))        # the view caches are filled
+    for step, ed in enumerate(hist):
+        if ed == 'net':
+            P = shapes.net(ctx, 'Q%d' % step, total, dim)
+            W = shapes.weights(ctx, 'q%d' % step, total)
+            obj.set_ctrlpts([list(r) for r in spec.weighted(P, W)], *sizes)
+        elif ed == 'ctrlpts':
+            P = shapes.net(ctx, 'R%d' % step, total, dim)
+            obj.ctrlpts = [list(r) for r in P]
+        else:
+            W = shapes.weights(ctx, 'r%d' % step, total)
+            obj.weights = list(W)
+    prm = [shapes.param_in(ctx, nm, U[0], U[-1]) for nm, U in zip('uvw', kvs)]
+    Pw = shapes.homog(P, W)
+    if kind == 'curve':
+        wf = spec.curve_point(deg[0], kvs[0], [[w] for w in W], prm[0])[0]
+        want = spec.curve_point(deg[0], kvs[0], Pw, prm[0])
+    elif kind == 'surface':
+        wf = spec.surface_point(deg[0], deg[1], kvs[0], kvs[1], [[w] for w in W], sizes[0], sizes[1], prm[0], prm[1])[0]
+        want = spec.surface_point(deg[0], deg[1], kvs[0], kvs[1], Pw, sizes[0], sizes[1], prm[0], prm[1])
+    else:
+        wf = spec.volume_point(deg[0], deg[1], deg[2], kvs[0], kvs[1], kvs[2], [[w] for w in W], sizes[0], sizes[1], sizes[2], *prm)[0]
+        want = spec.volume_point(deg[0], deg[1], deg[2], kvs[0], kvs[1], kvs[2], Pw, sizes[0], sizes[1], sizes[2], *prm)
+    ctx.assume_pos(wf, 'L.weight_function_positive')
+    want = spec.project(want)
+    arg = prm[0] if kind == 'curve' else list(prm)
+    ctx.check_eq_vec('after_edits.evaluate_single', obj.evaluate_single(arg), want)
+    ctx.check_eq_vec('after_edits.evaluate_list[0]', obj.evaluate_list([arg])[0], want)
+    if kind == 'curve':
+        ctx.check_eq_vec('after_edits.derivatives.order0', obj.derivatives(prm[0], 0)[0], want)
+    elif kind == 'surface':
+        ctx.check_eq_vec('after_edits.derivatives.order0', obj.derivatives(prm[0], prm[1], 0)[0][0], want)
